@@ -3,7 +3,7 @@
 (* Model / Sector API on top of it), recorded by harness/checks/c10.py, are judged    *)
 (* against the SUPPLIED data carried by the events, re-using ParseOp / SolveOp.       *)
 (* One total verdict per trace id.                                                    *)
-(*   Parse event:  cfg (block, exogenous spec and values, ICs, horizon, where,        *)
+(*   Parse event:  cfg (block, exogenous spec and values, ICs, horizon, where, late,  *)
 (*                 reduce), api, dress ("int": the supplied values are the small      *)
 (*                 integers of cfg; "float": seeded random floats of the same shape,  *)
 (*                 compared in Python), ok/exc, observed classification and MaxTime   *)
@@ -29,7 +29,8 @@ Rank(v) == CASE v.kind = "ok" -> 0 [] v.kind = "drift" -> 1 [] v.kind = "propert
 Worse(a, b) == IF Rank(b) > Rank(a) THEN b ELSE a     \* keeps the first of equal rank
 
 NoCfg == [bp |-> "", vars |-> << >>, exo |-> [form |-> "list", vals |-> << >>, v |-> 0],
-          ics |-> << >>, icform |-> "float", horizon |-> 0, where |-> "default", reduce |-> TRUE]
+          ics |-> << >>, icform |-> "float", horizon |-> 0, where |-> "default", reduce |-> TRUE,
+          late |-> 0]
 
 ----------------------------------------------------------------------------
 (* Parse: conformance only *)
@@ -106,7 +107,7 @@ JudgeSolve(e, c, s) ==
 ----------------------------------------------------------------------------
 TraceInit == /\ cfg = NoCfg /\ phase = S0.phase /\ vlist = S0.vars /\ deco = S0.deco
              /\ horizon = S0.horizon /\ series = S0.series /\ tz = S0.tz /\ step = S0.step
-             /\ err = S0.err /\ l = 1 /\ verdict = Ok
+             /\ err = S0.err /\ smax = S0.smax /\ l = 1 /\ verdict = Ok
 
 TraceNext ==
     /\ l <= Len(Log)
